@@ -762,6 +762,14 @@ func genC15Rest(n int, r *Rng, emit func(Case)) {
 	for i := 0; i < n; i++ {
 		ver := allVers[i%3]
 		if t, ok := genFindCase(r, ver, "G"); ok {
+			if nraw := atoi(t[1]); ver == "v3" && nraw > 0 && t[2+nraw] == "0" && i%2 == 0 {
+				// the generator ends its digits with some other value outside 0-9 (any such value is an end signal)
+				end := r.Pick([]int{256, 1 << 32, MinInt, 10, 255, 1000, 512 + r.Intn(10), -256 + r.Intn(10), MaxInt, 1<<40 + 7})
+				t2 := append(toks{}, t[:2+nraw]...)
+				t2[1] = itoa(nraw + 1)
+				t2 = append(t2, itoa(end))
+				t = append(t2, t[2+nraw:]...)
+			}
 			emit(Case{Ver: ver, Op: "Find", Args: t})
 		}
 	}
